@@ -3729,6 +3729,26 @@ Q(name="e2_quinn_send_stream_stopped_0rtt_guard", props=["C17"], crate="quinn", 
   replay=("quinn-test:stale_early_bi_handles_do_not_touch_fresh_stream", lambda m: [dict()]))
 
 
+def q0g_exec_post(c, p):
+    st = p.p.state
+    acted = [x for x in st.calls if re.search(r"quinn_proto::Connection::send_stream$|call_once", x[0])]
+    if not acted:
+        return "true"
+    early = c.inp("*_1.%d" % c.field("send_stream.rs", "SendStream", "is_0rtt", crate="quinn"), BOOL)
+    chk = [x for x in st.calls[:st.calls.index(acted[0])] if re.search(r"State::check_0rtt$", x[0])]
+    if not chk:
+        return not_(early)
+    ok = eq(c.ex.read_key(st, chk[-1][2] + "#discr", I64).t, bv(0))
+    return or_(not_(early), ok)
+
+
+Q(name="e2_quinn_execute_poll_0rtt_guard", props=["C17"], crate="quinn", func=r"send_stream\.rs:\d+:1: \d+:16>::execute_poll$",
+  allowed_panics=r".", ignore_untranslatable=r".", inline=[r"execute_poll::\{closure#0\}$", r"Result::<.*map_err", r"map_err"],
+  functions=["quinn::SendStream::execute_poll (generic over the write closure: the body of write, write_chunk, write_chunks and their poll_ forms)"], pre=lambda c: "true", post=q0g_exec_post,
+  bounds="every state of the handle and of the connection, the write closure opaque: the write path looks the stream up in the protocol state machine and runs the write closure only if the handle was not created during 0-RTT, or check_0rtt was asked first and did not report a rejection - a stale handle writes into the fresh stream that reuses its ID otherwise",
+  replay=("quinn-test:stale_early_handle_does_not_touch_fresh_stream", lambda m: [dict()]))
+
+
 # ------------------------------------------------------------------ C11: every stream event wakes the parties that wait for it (one iteration of the event loop)
 def qfe_post(c, p):
     st = p.p.state
